@@ -228,11 +228,11 @@ Qed.
 
 (* operations that maintain the index of the model found by model_of: step over the read-only prefix, then the rest
    respects the frame of that model *)
-Ltac frame_with_model hh ww H :=
+Ltac frame_with_model H :=
   wrun_ro H ltac:(apply FrameOf_refl);
   try solve [apply FrameOf_refl];
   match goal with
-  | Hm : model_of hh ww = Val (OK ?m, ww) |- _ =>
+  | Hm : model_of ?hh ?ww = Val (OK ?m, ?ww) |- FrameOf ?hh ?ww _ =>
     exists m; split;
     [ apply FR_CopyFrame;
       match type of H with
@@ -260,12 +260,48 @@ Proof. apply FrameOf_nomodel. intros n0 m. unfold e_set_comment. frs_tac. Qed.
 
 Lemma frame_create_named h name item w r w' :
   e_create_named_sub_element T check_fn LATEST h name item w = Val (r, w') -> FrameOf h w w'.
-Proof. unfold e_create_named_sub_element. intros H. frame_with_model h w H. Qed.
+Proof. unfold e_create_named_sub_element. intros H. frame_with_model H. Qed.
 Lemma frame_create_named_at h name item pos w r w' :
   e_create_named_sub_element_at T check_fn LATEST h name item pos w = Val (r, w') -> FrameOf h w w'.
-Proof. unfold e_create_named_sub_element_at. intros H. frame_with_model h w H. Qed.
+Proof. unfold e_create_named_sub_element_at. intros H. frame_with_model H. Qed.
 Lemma frame_get_or_create_named h name item w r w' :
   e_get_or_create_named_sub_element T check_fn LATEST h name item w = Val (r, w') -> FrameOf h w w'.
-Proof. unfold e_get_or_create_named_sub_element. intros H. frame_with_model h w H. Qed.
+Proof. unfold e_get_or_create_named_sub_element. intros H. frame_with_model H. Qed.
+
+Lemma frame_set_character_data h v w r w' :
+  e_set_character_data T tab_en check_fn LATEST h v w = Val (r, w') -> FrameOf h w w'.
+Proof. unfold e_set_character_data. intros H. frame_with_model H. Qed.
+
+Lemma frame_remove_character_data h w r w' :
+  e_remove_character_data T h w = Val (r, w') -> FrameOf h w w'.
+Proof.
+  unfold e_remove_character_data. intros H.
+  wrun_ro H ltac:(apply FrameOf_refl).
+  all: try solve [apply FrameOf_refl].
+  destruct v1.
+  - (* a reference element: the origin entry of h's model is removed *)
+    apply wbind_inv in H as [(u & w1 & E & H) | (e & E & ->)].
+    + apply wbind_inv in E as [(m & w2 & Em & E) | (e & Em & [=])].
+      assert (w2 = w) by (eapply ro_model_of; eauto). subst w2.
+      exists m. split; [|right; exact Em]. apply FR_CopyFrame.
+      eapply FR_trans.
+      * assert (F : frs (w_next w) h m (match c with DString r0 => remove_reference_origin m r0 h | _ => wret tt end))
+          by frs_tac3.
+        exact (F _ _ _ E).
+      * assert (F : frs (w_next w) h m (modify_node h (fun x => set_content x []))) by frs_tac3.
+        exact (F _ _ _ H).
+    + apply wbind_inv in E as [(m & w2 & Em & E) | (e' & Em & _)].
+      * assert (w2 = w) by (eapply ro_model_of; eauto). subst w2.
+        exists m. split; [|right; exact Em]. apply FR_CopyFrame.
+        assert (F : frs (w_next w) h m (match c with DString r0 => remove_reference_origin m r0 h | _ => wret tt end))
+          by frs_tac3.
+        exact (F _ _ _ E).
+      * assert (w' = w) by (eapply ro_model_of; eauto). subst w'. apply FrameOf_refl.
+  - revert H. apply FrameOf_nomodel. intros n0 m. frs_tac3.
+Qed.
+
+Lemma frame_set_reference_target h target w r w' :
+  e_set_reference_target T tab_el tab_en check_fn LATEST h target w = Val (r, w') -> FrameOf h w w'.
+Proof. unfold e_set_reference_target. intros H. frame_with_model H. Qed.
 
 End Frame.
